@@ -79,7 +79,7 @@ func (w *world) lit(n int) []int {
 	return s[:n:n]
 }
 
-const nRoots = 6
+const nRoots = 9
 
 func newWorld(root int) *world {
 	w := &world{root: root}
@@ -95,6 +95,12 @@ func newWorld(root int) *world {
 	case 5:
 		s = nil
 		how = "nil slice (an empty result of Filter/Take/Skip/Map)"
+	case 6, 7, 8:
+		// literals with repeated elements (Distinct, Sort and equality-based code only do something here)
+		a, b, c := w.next(), w.next(), w.next()
+		s = [][]int{{a, b, a, c}, {a, a, b}, {b, a, b, a, c}}[root-6]
+		s = s[:len(s):len(s)]
+		how = fmt.Sprintf("literal with repeated elements %v", s)
 	}
 	w.group = []*val{{s: s, want: append([]int{}, s...), how: how}}
 	return w
